@@ -141,7 +141,9 @@ def response_paths(doc: DocumentNode, op: OperationDefinitionNode) -> Dict[Tuple
                 key = sel.alias.value if sel.alias else sel.name.value
                 p = path + (key,)
                 c = conditional or cond(sel)
-                info = out.setdefault(p, {"conditional": True, "count": 0, "typed": True, "field_directive": False})
+                info = out.setdefault(p, {"conditional": True, "count": 0, "typed": True, "field_directive": False, "aliased_typename": False})
+                if sel.name.value == "__typename" and sel.alias is not None:
+                    info["aliased_typename"] = True
                 info["count"] += 1
                 info["conditional"] = info["conditional"] and c
                 info["typed"] = info["typed"] and typed
@@ -252,6 +254,11 @@ def corruptions(data: Dict[str, Any], types: Dict[Tuple, Any], rpaths: Dict[Tupl
             break
         if path[-1] == "__typename":
             if len(path) > 1 and type_at(types, path[:-1]) is not None:
+                out.append(("typename-not-possible", path, set_at(data, path, "NotAPossibleType")))
+            continue
+        if (rpaths.get(key_path(path)) or {}).get("aliased_typename") and isinstance(value, str):
+            # `kind: __typename` - the same obligation under another response key
+            if len(path) > 1 and type_at(types, path[:-1]) is not None and not rpaths[key_path(path)]["conditional"]:
                 out.append(("typename-not-possible", path, set_at(data, path, "NotAPossibleType")))
             continue
         t = type_at(types, path)
